@@ -144,6 +144,7 @@ class Recorder:
         self.call_paras = []               # parameter sets the objective really saw, in order
         self.events = []                   # ("I", pos) ("i", score) ("F",) ("T", pos) ("t", score)
         self.nsteps_api = 0
+        self.blog = None                   # optional backend-level log (harness.bkd.Log)
         for name, tag in (("init_pos", "I"), ("iterate", "T")):
             self._wrap_pos(name, tag)
         for name, tag in (("evaluate_init", "i"), ("evaluate", "t")):
@@ -185,6 +186,8 @@ class Recorder:
         orig = getattr(self.opt, name)
 
         def w(*a, **k):
+            if self.blog is not None:
+                self.blog.step = len(self.opt.results_mang.results_list)
             try:
                 p = orig(*a, **k)
             except Exception:
